@@ -35,6 +35,9 @@ SOURCES = {
     "map": [("k_cv_map", "cv_map")],
     "cell": [("k_cv_cell", "cv_cell"), ("k_c_ref", "c_ref"), ("k_c_ptr", "c_ptr"), ("k_c_sp", "c_sp"), ("ret_cell_cref()", "c_ret"), ("ret_cell_cptr()", "c_ret")],
 }
+# literal spellings whose C++ type is not int / double (the typed harness functions take int& / double&)
+OTHER_WIDTH = {"5u", "5l", "5ul", "5ll", "5ull", "2147483648", "9223372036854775807", "9223372036854775808", "0xFFFFFFFFFFFFFF00", "18446744073709551000",
+               "0x8000000000000000", "2.5f", "2.5l"}
 MUTATORS = {
     "int": ["X = 1", "X += 1", "X -= 1", "X *= 2", "X /= 2", "X %= 2", "X &= 1", "X |= 1", "X ^= 1", "X <<= 1", "X >>= 1", "++X", "--X", "mut_int_ref(X)", "mut_int_ptr(X)", "mut_int_sp(X)", "X := 3"],
     "bool": ["X = false", "X = true", "X := false"],
@@ -148,6 +151,11 @@ def check(c, ctx):
             # shared_ptr<T> of an arithmetic type: the dispatcher may convert the const number into a fresh temporary and pass that;
             # the property names references and pointers only -- the source staying unchanged (checked above) is what matters here
             ctx.classify("not_required_to_raise", "shared_ptr of arithmetic")
+            return
+        if c["src"] in OTHER_WIDTH and ("mut_int_" in c["mut"] or "mut_dbl_" in c["mut"]):
+            # a number of another arithmetic type offered to int& / double&: the dispatcher converts it into a fresh temporary and passes that
+            # (the const object itself is not handed out; nothing to observe on a literal) -- no claim, as in C06
+            ctx.classify("not_required_to_raise", "arithmetic conversion to the parameter type makes a temporary")
             return
         if "exc" not in r:
             raise Violation("a mutation attempt through an alias chain of a const %s did not raise (result %s)" % (c["t"], r["res"]["r"]), {"script": script})
